@@ -5,6 +5,7 @@ import json, os
 HERE = os.path.dirname(os.path.dirname(os.path.abspath(__file__)))
 
 HOOK_COMMITS = [
+    'f06c255 verif hooks: states recorded after the next of a stream-fold iteration that a run leaves unconsumed (FoldAfterStatesUnconsumed, counted by FoldFSM); cfg aquavm_verif only',
     "d11bf43 verif hooks: script-text position of stream operands (StreamUse) and span of new scopes (ScopeSpan), emitted before the existing StreamAdd / CanonSnapshot / FoldStart / ScopeStart events; cfg aquavm_verif only",
     "86b1c71 verif hooks: unclaimed fold lore split into unvisited / unreplayed / lost mapping (consumed positions recorded by the trace slider), event for a call that fails while resolving arguments although it is recorded as sent; cfg aquavm_verif only",
     "d3baacf verif hooks: event sink for stream appends, scopes, canon snapshots and stream fold iterations, compiled only with --cfg aquavm_verif",
